@@ -505,7 +505,7 @@ PROPS["C19"] = dict(
     streams=["C19"],
     compare=cmp_laws,
     classify=lambda case, model, why: dict(kind="failing-input", why=(case[1][:300] if "kind=law" in case[2] else why)),
-    gate_imports=EVAL_GATE + "From Cel.Model Require Import Refs.\nFrom Cel.Proofs Require Import NoCrash RefsProofs.",
+    gate_imports=EVAL_GATE + "From Cel.Model Require Import Refs.\nFrom Cel.Proofs Require Import NoCrash RefsProofs RefsComplete.\nFrom Cel.Model Require Import Macros Refs.",
     exhaustive=False,
     rule="a case is a generated program with random variable and function names in every syntactic "
          "position (operands, receivers, arguments, indices, map keys and values, list elements, "
